@@ -142,6 +142,9 @@ func MultIteratorFromDense(tts ...DenseTensor) *MultIterator {
 
 	it := NewMultIterator(aps...)
 	runtime.SetFinalizer(it, destroyIterator)
+	if verifEnabled {
+		verifFinalizer(it)
+	}
 
 	if masked {
 		// create new mask slice if more than tensor is masked
